@@ -1450,49 +1450,60 @@ func (self *Node) LoadAll() error {
 // Load loads the node's children as parsed.
 // and ensure all its children can be READ concurrently (include its children's children)
 func (self *Node) Load() error {
+	first, err := self.loadSelf()
+	if err != nil || !first {
+		return err
+	}
+	/* the children which were handed out before Load() (raw or lazy nodes created
+	 * without a mutex by an earlier Get/Index) must become safe for concurrent reads
+	 * too, the children created by Load() itself already carry a mutex. Walk them
+	 * with an explicit work list, the tree may be deep. */
+	todo := []*Node{self}
+	for len(todo) > 0 {
+		n := todo[len(todo)-1]
+		todo = todo[:len(todo)-1]
+		switch n.itype() {
+		case types.V_ARRAY:
+			s := (*linkedNodes)(n.p)
+			for i := 0; i < s.Len(); i++ {
+				if c := s.At(i); c != nil && c.m == nil && c.isContainerOrRaw() {
+					if ok, _ := c.loadSelf(); ok {
+						todo = append(todo, c)
+					}
+				}
+			}
+		case types.V_OBJECT:
+			s := (*linkedPairs)(n.p)
+			for i := 0; i < s.Len(); i++ {
+				if p := s.At(i); p != nil && p.Value.m == nil && p.Value.isContainerOrRaw() {
+					if ok, _ := p.Value.loadSelf(); ok {
+						todo = append(todo, &p.Value)
+					}
+				}
+			}
+		}
+	}
+	return nil
+}
+
+// loadSelf loads the direct children of the node and gives it a mutex,
+// it reports whether this was the first load of the node.
+func (self *Node) loadSelf() (bool, error) {
 	switch self.t {
 	case _V_ARRAY_LAZY:
 		self.loadAllIndex(true)
 	case _V_OBJECT_LAZY:
 		self.loadAllKey(true)
 	case V_ERROR:
-		return self
+		return false, self
 	case V_NONE:
-		return nil
+		return false, nil
 	}
 	first := self.m == nil
 	if first {
 		self.m = new(sync.RWMutex)
 	}
-	if err := self.checkRaw(); err != nil {
-		return err
-	}
-	if first {
-		self.loadVisited()
-	}
-	return nil
-}
-
-// loadVisited makes the children which were handed out before Load() (raw or lazy
-// nodes created without a mutex by an earlier Get/Index) safe for concurrent reads too,
-// the children created by Load() itself already carry a mutex.
-func (self *Node) loadVisited() {
-	switch self.itype() {
-	case types.V_ARRAY:
-		s := (*linkedNodes)(self.p)
-		for i := 0; i < s.Len(); i++ {
-			if c := s.At(i); c != nil && c.m == nil && c.isContainerOrRaw() {
-				_ = c.Load()
-			}
-		}
-	case types.V_OBJECT:
-		s := (*linkedPairs)(self.p)
-		for i := 0; i < s.Len(); i++ {
-			if p := s.At(i); p != nil && p.Value.m == nil && p.Value.isContainerOrRaw() {
-				_ = p.Value.Load()
-			}
-		}
-	}
+	return first, self.checkRaw()
 }
 
 func (self *Node) isContainerOrRaw() bool {
